@@ -67,7 +67,7 @@ def replay_translation(data):
         f = rng.normal(size=(5, 6, 4)).astype(np.float32)
         v1, f1, n1, val1 = so.marching_cubes(f, 0.1, Lreal, 1, 0)
         v2, f2, n2, val2 = m.marching_cubes(f, 0.1, L, 1, 0)
-        if not (np.array_equal(f1, f2) and np.allclose(v1, v2, atol=1e-5)):
+        if not (np.array_equal(f1, f2) and np.allclose(v1, v2, rtol=0, atol=1e-5)):
             bad.append("compiled kernel and its source disagree on a random field")
     return bool(bad), bad
 
@@ -114,7 +114,7 @@ def fidelity(ctx):
         lev = float(np.median(f))
         v1, f1, n1, val1 = so.marching_cubes(f, lev, Lreal, 1, 0)
         v2, f2, n2, val2 = m.marching_cubes(f, lev, L, 1, 0)
-        same = same and np.array_equal(f1, f2) and np.allclose(v1, v2, atol=1e-5)
+        same = same and np.array_equal(f1, f2) and np.allclose(v1, v2, rtol=0, atol=1e-5)
     ctx.compiled_check("kernel: translated _mc_lewiner.pyx reproduces the compiled module (faces identical, vertices to 1e-5) on 6 fields covering the ambiguous cases",
                        bool(same), "%.1fs" % (time.time() - t0))
     return m
